@@ -187,6 +187,7 @@ type pdfLine struct {
 	x, y int
 	size int
 	text string
+	font int // 0 or 1: /F1 (WinAnsi), 2: /F2 (MacRoman), 3: /F3 (Differences)
 }
 
 // mkPDFLines: one content stream per page with absolutely positioned lines (Tm)
@@ -209,6 +210,21 @@ func mkPDFLines(pages [][]pdfLine, width, height int) []byte {
 	obj(2, fmt.Sprintf("<< /Type /Pages /Kids [%s] /Count %d >>", strings.Join(kids, " "), len(pages)))
 	obj(3, "<< /Type /Font /Subtype /Type1 /BaseFont /Helvetica /Encoding /WinAnsiEncoding >>")
 	esc := strings.NewReplacer("\\", "\\\\", "(", "\\(", ")", "\\)")
+	fontRes := "/F1 3 0 R"
+	multi := false
+	for _, lines := range pages {
+		for _, l := range lines {
+			if l.font > 1 {
+				multi = true
+			}
+		}
+	}
+	if multi {
+		base := 4 + 2*len(pages)
+		obj(base, "<< /Type /Font /Subtype /Type1 /BaseFont /Times-Roman /Encoding /MacRomanEncoding >>")
+		obj(base+1, "<< /Type /Font /Subtype /Type1 /BaseFont /Courier /Encoding << /Type /Encoding /BaseEncoding /WinAnsiEncoding /Differences [65 /alpha /beta 233 /Omega] >> >>")
+		fontRes = fmt.Sprintf("/F1 3 0 R /F2 %d 0 R /F3 %d 0 R", base, base+1)
+	}
 	for i, lines := range pages {
 		var c strings.Builder
 		c.WriteString("BT\n")
@@ -217,11 +233,15 @@ func mkPDFLines(pages [][]pdfLine, width, height int) []byte {
 			if sz == 0 {
 				sz = 12
 			}
-			fmt.Fprintf(&c, "/F1 %d Tf 1 0 0 1 %d %d Tm (%s) Tj\n", sz, l.x, l.y, esc.Replace(l.text))
+			fn := l.font
+			if fn == 0 {
+				fn = 1
+			}
+			fmt.Fprintf(&c, "/F%d %d Tf 1 0 0 1 %d %d Tm (%s) Tj\n", fn, sz, l.x, l.y, esc.Replace(l.text))
 		}
 		c.WriteString("ET")
 		content := c.String()
-		obj(4+2*i, fmt.Sprintf("<< /Type /Page /Parent 2 0 R /MediaBox [0 0 %d %d] /Resources << /Font << /F1 3 0 R >> >> /Contents %d 0 R >>", width, height, 5+2*i))
+		obj(4+2*i, fmt.Sprintf("<< /Type /Page /Parent 2 0 R /MediaBox [0 0 %d %d] /Resources << /Font << %s >> >> /Contents %d 0 R >>", width, height, fontRes, 5+2*i))
 		obj(5+2*i, fmt.Sprintf("<< /Length %d >>\nstream\n%s\nendstream", len(content), content))
 	}
 	xref := b.Len()
